@@ -98,6 +98,13 @@ def run(ctx: Ctx) -> None:
             n_unblock += 1
             wit = g.must_pass(nid, [g.exit], has_call("self.has_data.set"), skip_labels=("exc", "uncaught", "catch"))
             ctx.check("C09.R3", f"{M}:H2Protocol.{name}", f"unblock@{norm(g.node(nid).ast).splitlines()[0][:50]}", wit is None, "unblock not followed by has_data.set(): " + explain(g, wit), g.node(nid).ast)
+    ssf = repo.func(M, "H2Protocol.stream_send")
+    gs_ = CFG(ssf)
+    for blocking in ("self.stream_buffers[].push", "self.stream_buffers[].drain"):
+        for nid in gs_.where(has_call(blocking)):
+            ok = gs_.dominates(has_call("self.has_data.set"), nid) and gs_.dominates(has_call("self.priority.unblock"), nid)
+            ctx.check("C09.R3", f"{M}:H2Protocol.stream_send", f"unblock + wake-up before the blocking {blocking.split('.')[-1]}()", ok,
+                      f"{blocking.split('.')[-1]}() can wait (buffer above the high-water mark / not yet drained) for the send task, which is only woken afterwards: a chunk of 32 KiB or more deadlocks the response", gs_.node(nid).ast)
     # R4
     st = repo.func(M, "H2Protocol.send_task")
     g = CFG(st)
@@ -235,7 +242,9 @@ def run(ctx: Ctx) -> None:
         for s in starts:
             if has_call("self.connection.acknowledge_received_data")(gh.node(s)):
                 continue
-            wit = gh.must_pass(s, heads, has_call("self.connection.acknowledge_received_data"), skip_labels=("exc", "uncaught"))
+            # handled exceptions (e.g. the KeyError of a forgotten stream) continue to the next event:
+            # those paths must acknowledge too; only paths that leave the function are excluded
+            wit = gh.must_pass(s, heads, has_call("self.connection.acknowledge_received_data"), skip_labels=("uncaught",))
             if wit is not None:
                 ok = False
     ctx.check("C09.R7", wh, "DataReceived arm always acknowledges", ok, "a path through the DataReceived arm skips the acknowledgement (client upload window never reopens): " + explain(gh, wit), arm)
